@@ -181,6 +181,12 @@ def check_guarded_reads(ctx, rep, funcs, rule=RULE + '.c'):
     for f in funcs:
         fx = ctx.facts(f)
         for e in walk_no_nested(f.node):
+            if isinstance(e, ast.Call) and isinstance(e.func, ast.Attribute) and e.func.attr == 'get':
+                b = _delta_base(f, e.func.value, ctx)
+                if b is not None:
+                    n += 1
+                    rep.holds(rule, f, e, 'read of {}.delta through .get (no KeyError, no insertion)'.format(b[0]))
+                continue
             if not isinstance(e, ast.Subscript):
                 continue
             base = _delta_base(f, e.value, ctx)
